@@ -167,6 +167,13 @@ def consistent(flavour, f, model):
             ref.serialize()
         if not (f == ref and ref == f):
             return False
+        # ordinary mappings compare equal regardless of insertion order (blocks, categories and columns reversed)
+        rev = build(flavour, {bk: {ck: dict(reversed(list(cols.items()))) for ck, cols in reversed(list(cats.items()))}
+                              for bk, cats in reversed(list(model.items()))})
+        if flavour == "bcif":
+            rev.serialize()
+        if not (f == rev and rev == f):
+            return False
     return True
 
 
